@@ -31,7 +31,18 @@ Additional instructions for this round:
  - other people are running jobs on this machine at the same time: always export OMP_NUM_THREADS=1 OPENBLAS_NUM_THREADS=1 before running python or pytest (otherwise small fits become ~100x slower), never use `git stash` (the stash is shared between worktrees; use `git diff > file` / `git checkout -- .` / `git apply file`), and never touch /dev/shm files you did not create;
  - aim for changes of a DIFFERENT flavour from the obvious ones: e.g. state carried between calls (caches, module globals, mutated arguments or inputs), behaviour that depends on the ORDER of inputs or of operations, an off-by-one that only shows at a size/shape boundary, a unit or sign convention that only matters in one hemisphere/quadrant/polarity, an option combination, or the command-line entry point (AegeanTools/CLI/*.py) passing something slightly wrong to the library.
 """
+ROUND3 = """
+
+Additional instructions for this round:
+ - name the files mutE.diff / mutF.diff / demoE.py / demoF.py (not A/B);
+ - other people are running jobs on this machine at the same time: always export OMP_NUM_THREADS=1 OPENBLAS_NUM_THREADS=1 before running python or pytest (otherwise small fits become ~100x slower), never use `git stash` (the stash is shared between worktrees; use `git diff > file` / `git checkout -- .` / `git apply file`), and never touch /dev/shm files you did not create;
+ - aim for changes whose trigger is the REPRESENTATION of otherwise ordinary input, or a secondary code path: e.g. the on-disk/in-memory data type of the image or table column (float32 vs float64, integer BITPIX with BZERO/BSCALE, big-endian arrays as astropy returns them, masked columns, bytes vs str), the form of the header (CD matrix vs CDELT, missing optional cards, degenerate 3rd/4th axes, CRPIX far off the image, descending vs ascending axes), python scalars vs numpy scalars vs 0-d arrays, str vs pathlib paths vs open HDU objects, the multi-core code path (cores > 1) versus the serial one, non-default option values, or an input at the exact boundary between two branches. The change must still be invisible for the representation the existing tests use.
+"""
 letters = "AB"
+if "--round3" in sys.argv:
+    sys.argv.remove("--round3")
+    T = T.replace("mutA.diff / mutB.diff", "mutE.diff / mutF.diff").replace("demoA.py / demoB.py", "demoE.py / demoF.py").replace(
+        "(mutation A and mutation B)", "(mutation E and mutation F)").replace("_seed/demoA.py", "_seed/demoE.py") + ROUND3
 if "--round2" in sys.argv:
     sys.argv.remove("--round2")
     T = T.replace("mutA.diff / mutB.diff", "mutC.diff / mutD.diff").replace("demoA.py / demoB.py", "demoC.py / demoD.py").replace(
